@@ -23,14 +23,15 @@ import (
 // World is one simulated deployment: a provider node over SimStore, the
 // network, browsers, and a ledger of everything honest parties emitted.
 type World struct {
-	O      *kernel.Outcome
-	Tape   *kernel.Tape
-	Cfg    *kernel.Chooser
-	Store  *Store
-	Net    *Net
-	OP     *OPNode
-	Issuer string
-	Router string
+	O       *kernel.Outcome
+	Tape    *kernel.Tape
+	Cfg     *kernel.Chooser
+	Store   *Store
+	Net     *Net
+	OP      *OPNode
+	Issuer  string
+	Router  string
+	Wrapped bool // router B behind the application's own op.Server type (see OPConfig.Wrapped)
 	// QueryKeys names form parameters that PostForm sends in the URL query instead of the body.
 	QueryKeys []string
 	CryptoKey [32]byte
@@ -118,6 +119,11 @@ func NewStd(o *kernel.Outcome, tape *kernel.Tape, opt StdOptions) (*World, error
 	if w.Router == "" {
 		w.Router = cfg.Pick("A", "B")
 	}
+	// one LegacyServer world in three registers the application's own server type around it
+	w.Wrapped = w.Router == "B" && tape.Sub("cfg-wrapped").Bool(1, 3)
+	if w.Wrapped {
+		o.Probe("providers-behind-the-application's-own-server-type")
+	}
 	for i := range w.CryptoKey {
 		w.CryptoKey[i] = byte(cfg.Int(256))
 	}
@@ -146,6 +152,9 @@ func NewStd(o *kernel.Outcome, tape *kernel.Tape, opt StdOptions) (*World, error
 	w.Store.WrapSentinels = tape.Sub("cfg-wrap-sentinels").Bool(1, 2)
 	w.Store.UnknownClientAs = tape.Sub("cfg-unknown-client").Pick("", "", "oauth", "oauth-wrapped")
 	w.Store.LenientEmptySecret = tape.Sub("cfg-empty-secret").Bool(1, 2)
+	if w.Store.LenientEmptySecret {
+		o.Probe("storages-that-compare-an-empty-secret-plainly")
+	}
 	w.Store.EmptyAudience = tape.Sub("cfg-empty-aud").Bool(1, 2)
 	w.Store.TrustJWTExpiry = tape.Sub("cfg-jwt-expiry").Bool(1, 2)
 	if w.Store.TrustJWTExpiry {
@@ -218,7 +227,7 @@ func NewStd(o *kernel.Outcome, tape *kernel.Tape, opt StdOptions) (*World, error
 	if publicCtors {
 		o.Probe("providers-built-with-the-public-constructors")
 	}
-	node, err := BuildOP(w.Store, OPConfig{PublicCtors: publicCtors, Router: w.Router, Issuer: w.Issuer, IssuerPath: opt.IssuerPath, IssuerMode: w.IssuerMode, Config: w.Conf, Caps: w.Caps, Options: opts, Endpoints: opt.Endpoints})
+	node, err := BuildOP(w.Store, OPConfig{PublicCtors: publicCtors, Wrapped: w.Wrapped, Router: w.Router, Issuer: w.Issuer, IssuerPath: opt.IssuerPath, IssuerMode: w.IssuerMode, Config: w.Conf, Caps: w.Caps, Options: opts, Endpoints: opt.Endpoints})
 	if err != nil {
 		return nil, err
 	}
